@@ -347,6 +347,19 @@ pub fn check_program(prog: &Program, seed: u64, thorough: bool, rep: &mut Report
             None => return,
         }
     }
+    // one history with a very large store (ids beyond 2^16 / 2^17): sampled, it costs ~50 ms
+    static FIRST: std::sync::atomic::AtomicBool = std::sync::atomic::AtomicBool::new(true);
+    let first = FIRST.swap(false, std::sync::atomic::Ordering::Relaxed);
+    if first || rng.chance(1, if thorough { 4 } else { 12 }) {
+        let mut m = ReManager::new();
+        bulk_preload(&mut m, 70_000);
+        rep.inc("histories_run");
+        rep.inc("large_store_histories");
+        match run_history(&mut m, prog, 20, &mut rng, rep, seed, thorough, "large store (70 000 unrelated terms first)") {
+            Some(terms) => shapes.push(terms.iter().map(|t| format!("{}", t)).collect()),
+            None => return,
+        }
+    }
     // representation detail, recorded only: do different histories print the same term?
     if shapes.len() >= 2 {
         let same = shapes.iter().all(|s| s == &shapes[0]);
